@@ -23,6 +23,7 @@ from modelx.core.base import (
     LazyEval, get_mixin_slots, Interface)
 
 import asttokens
+import re
 
 
 def create_closure(new_value):
@@ -128,9 +129,25 @@ def is_lambda(src: str):
     return False
 
 
+_NEWLINE = re.compile(r"\r\n|\r|\n")
+
+
+def _source_lines(source: str):
+    """Lines of ``source`` as the tokenizer counts them
+
+    ``str.splitlines`` also cuts at form feeds, vertical tabs, the
+    separators U+001C to U+001E, U+0085, U+2028 and U+2029, which are
+    ordinary characters inside string literals and comments.
+    """
+    lines = _NEWLINE.split(source)
+    if lines and lines[-1] == "":
+        lines.pop()
+    return lines
+
+
 def remove_decorator(source: str):
     """Remove decorators from function definition"""
-    lines = source.splitlines()
+    lines = _source_lines(source)
     atok = asttokens.ASTTokens(source, parse=True)
 
     for node in ast.walk(atok.tree):
@@ -151,7 +168,7 @@ def remove_decorator(source: str):
 def replace_funcname(source: str, name: str):
     """Replace function name"""
 
-    lines = source.splitlines()
+    lines = _source_lines(source)
     atok = asttokens.ASTTokens(source, parse=True)
 
     for node in ast.walk(atok.tree):
